@@ -199,6 +199,7 @@ type shown struct {
 	code    string // code bytes
 	share   bool   // the code is already owned by the same glyph with another text (identity encoder)
 	recoded bool   // NewFromCMap returned a code which the CMap maps to another CID
+	outside bool   // a glyph outside the character collection of a predefined CMap (CID 0): outside the property
 }
 
 type liveFont struct {
@@ -316,6 +317,13 @@ func (lf *liveFont) encode(g font.Glyph, fontIdx int) (shown, bool) {
 	}
 	cb := string(lf.F.Codec().AppendCode(nil, code))
 	sh := shown{font: fontIdx, gid: g.GID, text: g.Text, code: cb}
+	if lf.cidw != nil && lf.cidw.mode == 'G' && lf.cidw.lastCID == 0 && g.GID != 0 {
+		// NewGIDToCIDFromROS has no CID for this glyph (e.g. a ligature the collection lacks): the
+		// embedder shows it as CID 0; like .notdef this is outside the property
+		sh.outside = true
+		e.Dist["doc:glyph-outside-character-collection"]++
+		return sh, true
+	}
 	if lf.cidw != nil && lf.cidw.mode == 'G' {
 		if lf.cidw.recoded {
 			lf.recodedCodes[cb] = true
@@ -765,6 +773,9 @@ func readBack(data []byte, fonts []*liveFont, expect []shown, caseInfo map[strin
 		widths := lf.F.GetGeometry().Widths
 		for i, sh := range want {
 			ci := map[string]any{"font": lf.k.label, "gid": sh.gid, "text": sh.text, "code": fmt.Sprintf("%x", sh.code), "doc": caseInfo}
+			if sh.outside {
+				continue
+			}
 			if sh.recoded {
 				// known finding: the code belongs to another CID; width and text of this glyph are not what is read back
 				if math.Abs(rc[i].Width-widths[sh.gid]) > widthTol || rc[i].Text != sh.text {
